@@ -520,6 +520,9 @@ func (fr *Frame) binop(op token.Token, a, b *Term, ta, tb types.Type, pos token.
 		return c.BVBin("bvmul", a, b)
 	case token.QUO:
 		fr.oblige("div", "", pos, g, c.Neq(b, c.BV(0, w)), "division by non-zero")
+		if !b.isBVLit() && fr.abstractDiv() {
+			return fr.absDiv(a, b, signed)
+		}
 		if signed {
 			return c.BVBin("bvsdiv", a, b)
 		}
@@ -568,6 +571,62 @@ func (fr *Frame) binop(op token.Token, a, b *Term, ta, tb types.Type, pos token.
 		return cmp("bvuge", "bvsge")
 	}
 	panic("binop " + op.String())
+}
+
+// abstractDiv: the function being verified asked (`abstractdiv`) for divisions
+// by a variable to be abstracted.
+func (fr *Frame) abstractDiv() bool {
+	top := fr
+	for top.parent != nil && !top.top {
+		top = top.parent
+	}
+	return top.contract != nil && top.contract.AbstractDiv
+}
+
+// absDiv: a/b for a non-constant b as an uninterpreted function together with
+// the facts that characterise truncated division of a non-negative dividend
+// by a positive divisor (q*b <= a < q*b+b, 0 <= q <= a) and its monotonicity
+// in the dividend. All facts are true of Go's `/`, so this only forgets
+// information (an over-approximation); it spares the solvers a 64-bit divider.
+func (fr *Frame) absDiv(a, b *Term, signed bool) *Term {
+	x := fr.x
+	c := x.c
+	w := bvWidth(a.sort)
+	name := "absdiv_u"
+	le, lt := "bvule", "bvult"
+	pos := c.True()
+	if signed {
+		name = "absdiv_s"
+		le, lt = "bvsle", "bvslt"
+		pos = c.And(c.BVCmp("bvsge", a, c.BV(0, w)), c.BVCmp("bvsgt", b, c.BV(0, w)))
+	} else {
+		pos = c.BVCmp("bvugt", b, c.BV(0, w))
+	}
+	q := c.UF(fmt.Sprintf("%s%d", name, w), a.sort, a, b)
+	if x.absDivs == nil {
+		x.absDivs = map[*Term]bool{}
+	}
+	if x.absDivs[q] {
+		return q
+	}
+	x.absDivs[q] = true
+	qb := c.BVBin("bvmul", q, b)
+	x.assumeRaw(c.Implies(pos, c.And(c.BVCmp(le, c.BV(0, w), q), c.BVCmp(le, q, a), c.BVCmp(le, qb, a), c.BVCmp(lt, c.BVBin("bvsub", a, qb), b),
+		c.BVCmp(le, c.BV(0, w), qb))))
+	for o := range x.absDivs {
+		if o == q || o.name != q.name || o.args[1] != b {
+			continue
+		}
+		oa := o.args[0]
+		opos := pos
+		if signed {
+			opos = c.And(pos, c.BVCmp("bvsge", oa, c.BV(0, w)))
+		}
+		x.assumeRaw(c.Implies(c.And(opos, c.BVCmp(le, oa, a)), c.BVCmp(le, o, q)))
+		x.assumeRaw(c.Implies(c.And(opos, c.BVCmp(le, a, oa)), c.BVCmp(le, q, o)))
+	}
+	x.note("divisions by a variable are abstracted to an uninterpreted function with the defining inequalities and monotonicity of truncated division (contract clause abstractdiv)")
+	return q
 }
 
 func (fr *Frame) convert(v *Term, from, to types.Type, s *State, g *Term) *Term {
